@@ -292,7 +292,11 @@ func newWorld(r *core.R) *world {
 
 	// contention profile: one tiny pool, many hosts, stalled claimers and long clock jumps - the block
 	// claim / reclaim / release windows that C22 is about
-	w.contention = src.Chance(300, "contention_profile")
+	cp := 300
+	if r.Armed("C22") {
+		cp = 600
+	}
+	w.contention = src.Chance(cp, "contention_profile")
 	r.Cfg("contention_profile", w.contention)
 	nh := src.Range(2, 4, "hosts")
 	if w.contention && nh < 3 {
@@ -321,6 +325,9 @@ func newWorld(r *core.R) *world {
 		w.strict, w.autoAlloc = true, false
 	}
 	w.cooldown = []int{0, 0, 5, 30, 120}[src.Intn(5, "cfg_cooldown")]
+	if w.contention && w.cooldown > 5 {
+		w.cooldown = 0 // addresses in cooldown keep a block non-empty; reclaim needs empty blocks
+	}
 	w.st.Put(&model.KVPair{Key: model.IPAMConfigKey{}, Value: &model.IPAMConfig{
 		StrictAffinity: w.strict, AutoAllocateBlocks: w.autoAlloc, MaxBlocksPerHost: w.maxBlocks, IPCooldownSeconds: w.cooldown,
 	}}, "~setup")
